@@ -56,6 +56,21 @@ Proof.
   - destruct (Nat.eqb k1 k); [reflexivity|exact IH].
 Qed.
 
+Lemma In_tdrop r (x : nat * nat) t : In x (tdrop_rid r t) -> In x t /\ snd x <> r.
+Proof.
+  unfold tdrop_rid. rewrite filter_In. intros [H1 H2]. split; [assumption|].
+  apply negb_true_iff in H2. now apply Nat.eqb_neq.
+Qed.
+
+Lemma tget_tdrop_other k r r' t : tget k t = Some r -> r <> r' -> tget k (tdrop_rid r' t) = Some r.
+Proof.
+  intros Hk Hne. induction t as [|[k1 v1] t IH]; cbn [tget] in *; [discriminate|].
+  unfold tdrop_rid in *. cbn [filter snd].
+  destruct (Nat.eqb_spec k1 k).
+  - injection Hk as ->. destruct (Nat.eqb_spec r r'); [contradiction|]. cbn [negb tget]. subst. now rewrite Nat.eqb_refl.
+  - destruct (negb (Nat.eqb v1 r')); [cbn [tget]; destruct (Nat.eqb_spec k1 k); [contradiction|]|]; now apply IH.
+Qed.
+
 (* ------------------------------------------------------------------ where records come from *)
 Definition J (pre : list scall) (s : cstore) : Prop :=
   (forall k r, In (k, r) (c_at s) -> In (CAt k r) pre) /\
@@ -85,9 +100,9 @@ Qed.
 
 Lemma J_revoke_at pre s r : J pre s -> J pre (fst (revoke_at s r)).
 Proof.
-  intros HJ. unfold revoke_at. destruct (tget r (c_atidx s)) as [k|]; [|exact HJ]. cbn.
+  intros HJ. unfold revoke_at. cbn.
   destruct HJ as (H1 & H2 & H3 & H4 & H5). repeat split; cbn; auto.
-  intros k0 r0 Hin. apply In_tdel in Hin. auto.
+  intros k0 r0 Hin. apply In_tdrop in Hin as [Hin _]. auto.
 Qed.
 
 Lemma J_step clients pre s c : J pre s -> J (pre ++ [c]) (fst (sstep clients s c)).
@@ -194,22 +209,10 @@ Proof.
     replace (pre ++ c :: suf) with ((pre ++ [c]) ++ suf) in Hn by (now rewrite <- app_assoc).
     apply (IH (pre ++ [c])); [now apply J_step|exact Hn|].
     pose proof (tget_In _ _ _ Hk) as Hin. destruct HJ as (H1 & H2 & _).
-    assert (Hrv : forall s0 r', (forall k0 r0, In (k0, r0) (c_at s0) -> In (CAt k0 r0) pre) ->
-                   (forall r0 k0, In (r0, k0) (c_atidx s0) -> In (CAt k0 r0) pre) ->
-                   tget k (c_at s0) = Some r -> Nat.eqb r' r = false ->
+    assert (Hrv : forall s0 r', tget k (c_at s0) = Some r -> Nat.eqb r' r = false ->
                    tget k (c_at (fst (revoke_at s0 r'))) = Some r).
-    { intros s0 r' G1 G2 Gk Hne. unfold revoke_at. destruct (tget r' (c_atidx s0)) as [k'|] eqn:Ei; [|exact Gk]. cbn.
-      destruct (Nat.eq_dec k k') as [<-|Hd]; [|now rewrite tget_tdel_other].
-      exfalso. apply tget_In in Ei. apply G2 in Ei. apply tget_In in Gk. apply G1 in Gk.
-      assert (r' = r); [|subst; now rewrite Nat.eqb_refl in Hne].
-      rewrite <- app_assoc in Hn. rewrite created_keys_app in Hn.
-      assert (Hn' : nodupb (created_keys TAccess pre) = true).
-      { clear -Hn. induction (created_keys TAccess pre) as [|x l IHl]; [reflexivity|]. cbn in *.
-        apply andb_true_iff in Hn as [Ha Hb]. rewrite (IHl Hb), andb_true_r.
-        apply negb_true_iff. apply negb_true_iff in Ha. destruct (existsb (Nat.eqb x) l) eqn:E; [|reflexivity].
-        apply existsb_exists in E as [y [Hy Hxy]]. rewrite <- Ha. symmetry. apply existsb_exists. exists y.
-        split; [apply in_or_app; now left|assumption]. }
-      eapply (created_same_rid TAccess k (CAt k r') (CAt k r) pre Hn' Ei Gk); cbn; now rewrite Nat.eqb_refl. }
+    { intros s0 r' Gk Hne. unfold revoke_at. cbn. apply tget_tdrop_other; [exact Gk|].
+      intros ->. now rewrite Nat.eqb_refl in Hne. }
     destruct c; cbn [sstep fst]; try exact Hk; cbn in Ekill.
     + (* ICo *) destruct (tget k0 (c_codes s)) as [[b r0]|]; exact Hk.
     + (* CAt k0 r0 *) cbn. destruct (Nat.eq_dec k k0) as [<-|Hd]; [|now rewrite tget_tset_other].
@@ -261,9 +264,8 @@ Proof.
         [rewrite <- app_assoc in Hn; exact Hn|cbn; rewrite Nat.eqb_refl; discriminate|cbn; rewrite Nat.eqb_refl; discriminate|now left].
     + (* DRt *) cbn. destruct (Nat.eq_dec k k0) as [<-|Hd]; [now rewrite Nat.eqb_refl in Ekill|now rewrite tget_tdel_other].
     + (* VRt *) now apply Hrv.
-    + (* VAt *) unfold revoke_at. destruct (tget r0 (c_atidx s)); exact Hk.
     + (* Rot *) pose proof (Hrv r0 Ekill) as Hs. destruct (revoke_rt s r0) as [s' e]. cbn in Hs.
-      destruct e; cbn; try exact Hs. unfold revoke_at. destruct (tget r0 (c_atidx s')); exact Hs.
+      destruct e; cbn; exact Hs.
 Qed.
 
 Lemma code_survives suf : forall pre s k r,
@@ -285,10 +287,54 @@ Proof.
     + (* ICo k0 *) destruct (Nat.eq_dec k k0) as [<-|Hd]; [now rewrite Nat.eqb_refl in Ekill|].
       destruct (tget k0 (c_codes s)) as [[b r0]|]; [cbn; now rewrite tget_tset_other|exact Hk].
     + (* VRt *) unfold revoke_rt. destruct (tget r0 (c_rtidx s)); [|exact Hk]. destruct (tget n (c_rt s)) as [[? ?]|]; exact Hk.
-    + (* VAt *) unfold revoke_at. destruct (tget r0 (c_atidx s)); exact Hk.
     + (* Rot *) unfold revoke_rt, revoke_at.
-      destruct (tget r0 (c_rtidx s)) as [k1|]; [destruct (tget k1 (c_rt s)) as [[b1 r1]|]|]; cbn;
-        try exact Hk; match goal with |- context [tget r0 ?t] => destruct (tget r0 t) end; exact Hk.
+      destruct (tget r0 (c_rtidx s)) as [k1|]; [destruct (tget k1 (c_rt s)) as [[b1 r1]|]|]; cbn; exact Hk.
+Qed.
+
+(* ---- after RevokeAccessToken r no access token created earlier under r exists any more *)
+Definition absent (k : nat) (s : cstore) : Prop := forall x, ~ In (k, x) (c_at s).
+
+Lemma at_entries_step s c k x :
+  In (k, x) (c_at (fst (sstep clients s c))) -> In (k, x) (c_at s) \/ c = CAt k x.
+Proof.
+  destruct c; cbn [sstep fst]; auto.
+  - destruct (tget k0 (c_codes s)) as [[b r]|]; auto.
+  - cbn. intros H. apply In_tset in H as [H|H]; [injection H as -> ->; now right|now left].
+  - cbn. intros H. apply In_tdel in H. now left.
+  - unfold revoke_rt. destruct (tget r (c_rtidx s)) as [k1|]; auto. destruct (tget k1 (c_rt s)) as [[? ?]|]; auto.
+  - cbn. intros H. apply In_tdrop in H as [H _]. now left.
+  - unfold revoke_rt. destruct (tget r (c_rtidx s)) as [k1|]; [destruct (tget k1 (c_rt s)) as [[? ?]|]|]; cbn; auto;
+      intros H; apply In_tdrop in H as [H _]; now left.
+Qed.
+
+Lemma absent_preserved suf : forall pre s k rid,
+  nodupb (created_keys TAccess (pre ++ suf)) = true -> In (CAt k rid) pre ->
+  absent k s -> absent k (replay clients s suf).
+Proof.
+  induction suf as [|c suf IH]; intros pre s k rid Hn Hc Ha; [exact Ha|]. cbn [replay].
+  replace (pre ++ c :: suf) with ((pre ++ [c]) ++ suf) in Hn by (now rewrite <- app_assoc).
+  apply (IH (pre ++ [c]) _ k rid Hn); [apply in_or_app; now left|].
+  intros x Hx. apply at_entries_step in Hx as [Hx|Hx]; [exact (Ha x Hx)|]. subst c.
+  rewrite <- app_assoc in Hn.
+  eapply (created_twice TAccess k (CAt k rid) (CAt k x) pre (CAt k x :: suf)); eauto;
+    [cbn; rewrite Nat.eqb_refl; discriminate|cbn; rewrite Nat.eqb_refl; discriminate|now left].
+Qed.
+
+Lemma revoked_then_absent suf : forall pre s k rid,
+  J pre s -> nodupb (created_keys TAccess (pre ++ suf)) = true -> In (CAt k rid) pre ->
+  existsb (revokes_at rid) suf = true -> absent k (replay clients s suf).
+Proof.
+  induction suf as [|c suf IH]; intros pre s k rid HJ Hn Hc He; [discriminate|]. cbn [replay existsb] in *.
+  pose proof Hn as Hn0.
+  replace (pre ++ c :: suf) with ((pre ++ [c]) ++ suf) in Hn by (now rewrite <- app_assoc).
+  destruct (revokes_at rid c) eqn:Er.
+  - destruct c; try discriminate. cbn in Er. apply Nat.eqb_eq in Er. subst r.
+    apply (absent_preserved suf (pre ++ [VAt rid]) _ k rid Hn); [apply in_or_app; now left|].
+    intros x Hx. cbn in Hx. apply In_tdrop in Hx as [Hx Hne]. cbn in Hne.
+    destruct HJ as (H1 & _). apply H1 in Hx.
+    assert (Hp : nodupb (created_keys TAccess pre) = true) by (rewrite created_keys_app in Hn0; eapply nodupb_prefix; exact Hn0).
+    apply Hne. eapply (created_same_rid TAccess k (CAt k x) (CAt k rid) pre Hp Hx Hc); cbn; now rewrite Nat.eqb_refl.
+  - cbn [orb] in He. apply (IH (pre ++ [c]) _ k rid); [now apply J_step|exact Hn|apply in_or_app; now left|exact He].
 Qed.
 
 (* right after its creation a record is present *)
@@ -327,6 +373,45 @@ Proof.
     - apply (IH (pre ++ [c])); [now apply J_step|exact Hn|exact Hi]. }
   intros Hi. apply (G calls [] cs0 J_init Hkd Hi).
 Qed.
+
+(* revocation reaches every access token of the request: a token created under request id r and
+   followed by RevokeAccessToken r is dead after the whole sequence *)
+Theorem revoked_access_token_is_dead : forall calls k,
+  distinct_creates calls = true ->
+  revoked_later k calls = Some true ->
+  live (replay clients cs0 calls) TAccess k = false.
+Proof.
+  intros calls k Hd.
+  assert (Hkd : nodupb (created_keys TAccess calls) = true).
+  { unfold distinct_creates in Hd. repeat (apply andb_true_iff in Hd as [Hd ?]). assumption. }
+  clear Hd.
+  assert (G : forall suf pre s, J pre s -> nodupb (created_keys TAccess (pre ++ suf)) = true ->
+              revoked_later k suf = Some true -> absent k (replay clients s suf)).
+  { induction suf as [|c suf IH]; intros pre s HJ Hn Hi; [discriminate|].
+    cbn [revoked_later] in Hi. cbn [replay].
+    replace (pre ++ c :: suf) with ((pre ++ [c]) ++ suf) in Hn by (now rewrite <- app_assoc).
+    destruct (creates TAccess k c) as [rid|] eqn:Ec.
+    - injection Hi as Hi. apply (revoked_then_absent suf (pre ++ [c]) _ k rid); [now apply J_step|exact Hn| |exact Hi].
+      apply in_or_app; right. destruct c; cbn in Ec; try discriminate.
+      destruct (Nat.eqb_spec k0 k); [|discriminate]. injection Ec as <-. subst. now left.
+    - apply (IH (pre ++ [c])); [now apply J_step|exact Hn|exact Hi]. }
+  intros Hi. pose proof (G calls [] cs0 J_init Hkd Hi) as Ha.
+  unfold live. destruct (tget k (c_at (replay clients cs0 calls))) as [x|] eqn:E; [|reflexivity].
+  exfalso. exact (Ha x (tget_In _ _ _ E)).
+Qed.
+
+(* one step: after RevokeAccessToken r, and after a RotateRefreshToken r that answered nil, the
+   store holds no access-token record of request r at all *)
+Theorem revoke_step_clears_request : forall s r k,
+  ~ In (k, r) (c_at (fst (sstep clients s (VAt r)))).
+Proof. intros s r k H. cbn in H. apply In_tdrop in H as [_ H]. now apply H. Qed.
+
+Theorem rotate_step_clears_request : forall s r k0 k,
+  snd (sstep clients s (Rot r k0)) = K -> ~ In (k, r) (c_at (fst (sstep clients s (Rot r k0)))).
+Proof.
+  intros s r k0 k. cbn [sstep]. destruct (revoke_rt s r) as [s' e]. destruct e; cbn; try discriminate.
+  intros _ H. apply In_tdrop in H as [_ H]. now apply H.
+Qed.
 End Survive.
 
 (* ------------------------------------------------------------------ monitor = model *)
@@ -360,7 +445,13 @@ Proof.
   { apply forallb_forall. intros [[kd k] alive] Hin. destruct (Hm kd k alive Hin) as [-> Hc]. cbn.
     destruct (invalidated_later kd k calls) as [b|] eqn:Ei; [|congruence].
     exact (model_satisfies_liveness_clause clients calls kd k b Hd Ei). }
-  now rewrite Hall.
+  rewrite Hall. cbn [negb].
+  assert (Hrev : forallb (revoked_dead calls) minted = true).
+  { apply forallb_forall. intros [[kd k] alive] Hin. destruct (Hm kd k alive Hin) as [-> _]. unfold revoked_dead.
+    destruct kd; try reflexivity. destruct (live s TAccess k) eqn:El; [|reflexivity].
+    destruct (revoked_later k calls) as [[|]|] eqn:Er; try reflexivity.
+    unfold s in El. rewrite (revoked_access_token_is_dead clients calls k Hd Er) in El. discriminate. }
+  now rewrite Hrev.
 Qed.
 
 (* non-vacuity: a refresh racing a revocation (the log of one recorded run): the rotated-in access
@@ -385,4 +476,17 @@ Proof. vm_compute. reflexivity. Qed.
 Example ex_rejected_dup :
   mon (check (KSched [0;1] [(1,CAt 2 0,K); (2,CAt 2 1,K)] (CS [] [(2,1)] [] [(0,2);(1,2)] [] [] [] [] [] []) [(TAccess,2,true)] 0))
   = Some "duplicate-signature".
+Proof. vm_compute. reflexivity. Qed.
+
+(* the repaired RevokeAccessToken: two access tokens created under one request id (as the hybrid
+   flow does); the index remembers only the second, revocation deletes both *)
+Example ex_revoke_all :
+  let calls := [CAt 1 0; CAt 2 0; CAt 3 7; VAt 0] in
+  c_at (replay [0] cs0 calls) = [(3, 7)] /\ c_atidx (replay [0] cs0 calls) = [(0, 2); (7, 3)] /\
+  revoked_later 1 calls = Some true /\ revoked_later 3 calls = Some false.
+Proof. vm_compute. repeat split; reflexivity. Qed.
+Example ex_rejected_revoked_alive :
+  mon (check (KSched [0] [(1,CAt 1 0,K); (1,CAt 2 0,K); (2,VAt 0,K)] (replay [0] cs0 [CAt 1 0; CAt 2 0; VAt 0])
+                [(TAccess,1,true); (TAccess,2,false)] 0))
+  = Some "revoked-access-token-alive".
 Proof. vm_compute. reflexivity. Qed.
